@@ -666,7 +666,134 @@ def _tri_cdf(s):
     return np.where(s < 1, s * s / 2, 1 - (2 - s) ** 2 / 2)
 
 
+# ------------------------------------------------------------------ reconfiguration histories
+class StubInteractionB(StubInteraction):
+    """a second interaction model (different interaction length), also without random draws"""
+    length = 3.7e8
+
+
+def ref_particle_type(ratio, source_code, u1, u2):
+    """the property's rule, written independently: flavour by cumulative ratio, neutrino iff u2 < fraction
+    (pgamma/cosmogenic 0.78, 0.61, 0.61; pp/astrophysical 0.5)"""
+    fr = {1: (0.78, 0.61, 0.61), 2: (0.5, 0.5, 0.5)}[source_code]
+    k = 0 if u1 < ratio[0] else 1 if u1 < ratio[0] + ratio[1] else 2
+    return (12, 14, 16)[k] * (1 if u2 < fr[k] else -1)
+
+
+SOURCE_SPELLINGS = [("cosmogenic", 1), ("pgamma", 1), ("astrophysical", 2), ("pp", 2), (1, 1), (2, 2), ("enum:cosmogenic", 1), ("enum:pp", 2)]
+DYADIC_RATIOS = [(0.25, 0.25, 0.5), (0.5, 0.5, 0.0), (0.0, 0.0, 1.0), (0.125, 0.375, 0.5), (1.0, 0.0, 0.0), (0.5, 0.25, 0.25)]
+
+
+def probe_reconfigure(ctx):
+    """Every public configuration attribute is reassigned after construction; the next throws (scripted
+    stream, so the comparison is exact) must be those of a freshly constructed generator with the
+    CURRENT configuration, and the particle type must follow the property's rule for the current
+    source and ratio.  Does not depend on the translation, so it also runs when that fails."""
+    g = gmod()
+    rng = ctx.rng
+    energies = {"E1": (lambda: 1e9), "E2": (lambda: 3.5e6), "E3": (lambda: 1e11)}
+    models = {"A": StubInteraction, "B": StubInteractionB}
+    StubInteraction.length = 1e9
+
+    def src_value(sp):
+        return getattr(g.Generator.SourceType, sp[5:]) if isinstance(sp, str) and sp.startswith("enum:") else sp
+
+    def build(cfg):
+        kw = dict(energy=energies[cfg["energy"]], shadow=cfg["shadow"], flavor_ratio=cfg["ratio"], source=src_value(cfg["source"][0]),
+                  interaction_model=models[cfg["model"]])
+        if cfg["cyl"]:
+            return g.CylindricalGenerator(cfg["dims"][0], cfg["dims"][1], **kw)
+        return g.RectangularGenerator(cfg["dims"][0], cfg["dims"][1], cfg["dims"][2], **kw)
+
+    def rand_cfg(cyl):
+        return {"cyl": cyl, "dims": ([rng.choice([1000.0, 512.0]), rng.choice([1000.0, 2048.0])] if cyl else
+                                     [rng.choice([1000.0, 256.0]), rng.choice([2000.0, 64.0]), rng.choice([1000.0, 2048.0])]),
+                "energy": rng.choice(list(energies)), "shadow": rng.random() < 0.3, "ratio": rng.choice(DYADIC_RATIOS),
+                "source": rng.choice(SOURCE_SPELLINGS), "model": rng.choice(list(models))}
+
+    def observe(gen, us, nev):
+        out = []
+        with np.errstate(all="ignore"):
+            with Script(us) as sc:
+                for _ in range(nev):
+                    c0 = gen.count
+                    p0 = sc.pos
+                    try:
+                        p = gen.create_event().roots[0]
+                    except Exception as e:
+                        out.append(("EXC", type(e).__name__))
+                        break
+                    out.append((tuple(float(x) for x in p.vertex), tuple(float(x) for x in p.direction), int(p.id.value), float(p.energy),
+                                float(p.survival_weight), float(p.interaction_weight), type(p.interaction).__name__,
+                                gen.count - c0, tuple(us[p0:sc.pos])))
+        return out
+    attrs = ["source", "ratio", "get_energy", "interaction_model", "shadow", "dims"]
+    for i in range(ctx.n(120, 2500)):
+        cfg = rand_cfg(rng.random() < 0.5)
+        gen = build(cfg)
+        hist = []
+        todo = [attrs[i % len(attrs)]] + [rng.choice(attrs) for _ in range(rng.randint(0, 3))]      # every attribute in turn, then random
+        for a in todo:
+            if a == "source":
+                cfg["source"] = rng.choice([sp for sp in SOURCE_SPELLINGS if sp[1] != cfg["source"][1]] if rng.random() < 0.8 else SOURCE_SPELLINGS)
+                gen.source = src_value(cfg["source"][0])
+                hist.append(["source", str(cfg["source"][0])])
+            elif a == "ratio":
+                cfg["ratio"] = rng.choice(DYADIC_RATIOS)
+                gen.ratio = np.array(cfg["ratio"])
+                hist.append(["ratio", list(cfg["ratio"])])
+            elif a == "get_energy":
+                cfg["energy"] = rng.choice(list(energies))
+                gen.get_energy = energies[cfg["energy"]]
+                hist.append(["get_energy", cfg["energy"]])
+            elif a == "interaction_model":
+                cfg["model"] = rng.choice(list(models))
+                gen.interaction_model = models[cfg["model"]]
+                hist.append(["interaction_model", cfg["model"]])
+            elif a == "shadow":
+                cfg["shadow"] = not cfg["shadow"]
+                gen.shadow = cfg["shadow"]
+                hist.append(["shadow", cfg["shadow"]])
+            else:
+                j = rng.randrange(len(cfg["dims"]))
+                cfg["dims"][j] = rng.choice([128.0, 1000.0, 4096.0, 750.0])
+                setattr(gen, (["dr", "dz"] if cfg["cyl"] else ["dx", "dy", "dz"])[j], cfg["dims"][j])
+                hist.append(["dims", j, cfg["dims"][j]])
+        fresh = build(cfg)
+        start = gen.count
+        fresh.count = start
+        nev = 2
+        us = [variate(rng) for _ in range(8 * 14 * nev)]
+        got, want = observe(gen, us, nev), observe(fresh, us, nev)
+        rep = {"kind": "reconfigure", "cyl": cfg["cyl"], "assignments": hist, "final": {k: (list(v) if isinstance(v, tuple) else v) for k, v in cfg.items()},
+               "us": us[:48]}
+        ctx.case(key=("reconfig", cfg["cyl"], json.dumps(hist), tuple(us[:16])), sample={"assignments": hist})
+        what = None
+        if gen.source is not fresh.source:
+            what = "source reads back %r, expected %r" % (gen.source, fresh.source)
+        elif got != want:
+            diff = next((k for k, (a_, b_) in enumerate(zip(got, want)) if a_ != b_), min(len(got), len(want)))
+            what = "throw %d differs from a freshly constructed generator with the current configuration: %r vs fresh %r" % (
+                diff, got[diff] if diff < len(got) else None, want[diff] if diff < len(want) else None)
+        else:
+            for ev in got:
+                if ev[0] == "EXC":
+                    continue
+                used = ev[8]
+                # accepted throw = the last one: vertex (3 draws), direction (2), flavour, nu/nubar (, accept variate)
+                off = (len(used) - 8 if cfg["shadow"] else 0) + 3 + 2
+                exp = ref_particle_type(cfg["ratio"], cfg["source"][1], used[off], used[off + 1])
+                if ev[2] != exp:
+                    what = "particle id %d for variates (%r, %r) but the configured ratios %r / source %r give %d" % (
+                        ev[2], used[off], used[off + 1], cfg["ratio"], cfg["source"][0], exp)
+                    break
+        if what:
+            ctx.fail("reconfigure:%s:%s:%r" % ("cyl" if cfg["cyl"] else "box", json.dumps(hist), us[:16]),
+                     "%s after the assignments %s: %s" % ("CylindricalGenerator" if cfg["cyl"] else "RectangularGenerator", json.dumps(hist), what), rep)
+
+
 def probes(ctx):
+    probe_reconfigure(ctx)
     probe_exit(ctx)
     probe_weights(ctx)
     if ctx.thorough or ctx.broken:
@@ -748,6 +875,9 @@ def replay(ctx, obj):
         with Script(obj["us"] + [0.5] * 64) as sc:
             ev = gen.create_event()
             print("implementation: variates used", sc.pos, "count", gen.count, "weights", ev.roots[0].survival_weight, ev.roots[0].interaction_weight)
+    elif k == "reconfigure":
+        print("re-run with: construct the initial generator, apply obj['assignments'] in order, then create_event on the scripted stream obj['us']; "
+              "compare with a fresh generator built from obj['final']")
     elif k == "list":
         print("implementation outputs:", obj.get("impl"))
     return 1
